@@ -141,6 +141,9 @@ func minInt64(a, b int64) int64 {
 
 const HashSize = 3
 
+// maxValueSize is the largest value size whose entry stride (HashSize + value size) fits in 8 bits.
+const maxValueSize = 255 - HashSize
+
 func (db *DB) entryStride() uint8 {
 	offsetSize := db.GetValueSize()
 	return uint8(HashSize) + uint8(offsetSize)
